@@ -2076,3 +2076,96 @@ theorem rrun_coherent : ∀ (l : List RRec) (r : RSt) (c : CSt), RInv r c → co
     · simp [hk] at hc
 
 end Uft.NonLocal
+
+namespace Uft.NonLocal
+
+/-! ### a call and its return leave the rest of the state alone (signal handlers) -/
+
+theorem call_frame {m : M} (hi : Inv m) (hx : m.sh.inExc = false) {k : Kind} {child slot orig fpw : Nat}
+    (hw : WellFormedOp m (.call k child slot orig fpw)) :
+    (step Fix.all m (.call k child slot orig fpw)).fs = ⟨slot, orig, chainOf k child⟩ :: m.fs ∧
+    (step Fix.all m (.call k child slot orig fpw)).sh.inExc = false ∧
+    (step Fix.all m (.call k child slot orig fpw)).sh.jbs = m.sh.jbs ∧
+    (step Fix.all m (.call k child slot orig fpw)).rjb = m.rjb ∧
+    (step Fix.all m (.call k child slot orig fpw)).sh.recIdx = m.sh.recIdx + (chainOf k child).length ∧
+    ∀ a, a ≠ slot → a ≠ slot - 1 → (∀ p ps, expFrames m.fs = p :: ps → a ≠ p.loc) →
+      (step Fix.all m (.call k child slot orig fpw)).sh.mem a = m.sh.mem a := by
+  obtain ⟨h1, hlt, hor, _, _⟩ := hw
+  obtain ⟨dead, hc, hd0⟩ := hi.ctl
+  have hd : dead = [] := hd0 hx
+  subst hd
+  simp only [List.nil_append] at hc
+  have hstep : step Fix.all m (.call k child slot orig fpw) =
+      { m with fs := ⟨slot, orig, chainOf k child⟩ :: m.fs,
+               sh := hookEntry Fix.all (progWrite m.sh slot orig fpw) k slot child } := by
+    simp [step, hi.nh, progWrite]
+  rw [hstep]
+  have hpw : ∀ a, a ≠ slot → a ≠ slot - 1 → (progWrite m.sh slot orig fpw).mem a = m.sh.mem a := by
+    intro a h1 h2
+    simp only [progWrite]; rw [upd_other _ _ h2, upd_other _ _ h1]
+  by_cases hk : k = .none
+  · subst hk
+    exact ⟨rfl, hx, rfl, rfl, rfl, fun a h1 h2 _ => hpw a h1 h2⟩
+  · have hhe := hookEntry_hooked_noexc Fix.all (s := progWrite m.sh slot orig fpw) hx hk slot child
+    refine ⟨rfl, ?_, ?_, rfl, ?_, ?_⟩
+    · show (hookEntry Fix.all (progWrite m.sh slot orig fpw) k slot child).inExc = false
+      rw [hhe]; simpa using hx
+    · show (hookEntry Fix.all (progWrite m.sh slot orig fpw) k slot child).jbs = m.sh.jbs
+      rw [hhe]; simp
+    · show (hookEntry Fix.all (progWrite m.sh slot orig fpw) k slot child).recIdx = _
+      rw [hhe, chainOf_hooked hk]; simp
+    · intro a ha1 ha2 ha3
+      show (hookEntry Fix.all (progWrite m.sh slot orig fpw) k slot child).mem a = m.sh.mem a
+      rw [hhe]
+      obtain ⟨h0, _, h2⟩ := pushHook_mem (s := progWrite m.sh slot orig fpw) slot child (decide (k = .plt)) hx hc hi.origs
+      cases he : expFrames m.fs with
+      | nil => rw [h0 he, upd_other _ _ ha1]; exact hpw a ha1 ha2
+      | cons p ps =>
+        have hne : p.loc ≠ slot := by
+          obtain ⟨g, hg, e⟩ := expFrames_loc (by rw [he]; simp : p ∈ expFrames m.fs)
+          rw [e]; exact Nat.ne_of_gt (hlt g hg)
+        obtain ⟨g, hg, _, hgl, hmem⟩ := h2 p ps he hne
+        rw [hmem, upd_other _ _ (by rw [← hgl]; exact ha3 p ps he), upd_other _ _ ha1]
+        exact hpw a ha1 ha2
+
+theorem ret_frame {m : M} (hi : Inv m) (hx : m.sh.inExc = false) (hw : WellFormedOp m .ret) {f : Frame}
+    {fs : List Frame} (hf : m.fs = f :: fs) :
+    (step Fix.all m .ret).sh.inExc = false ∧ (step Fix.all m .ret).sh.jbs = m.sh.jbs ∧
+    (step Fix.all m .ret).rjb = m.rjb ∧
+    (step Fix.all m .ret).sh.recIdx = m.sh.recIdx - f.chain.length ∧
+    ∀ a, (∀ p ps, expFrames fs = p :: ps → a ≠ p.loc) → (step Fix.all m .ret).sh.mem a = m.sh.mem a := by
+  obtain ⟨dead, hc, hd0⟩ := hi.ctl
+  have hd : dead = [] := hd0 hx
+  subst hd
+  rw [step_ret_eq _ hi.nh hf]
+  have hsorted : Sorted (f :: fs) := hf ▸ hi.sorted
+  have hof : isTramp f.orig = false := hi.origs f (by rw [hf]; simp)
+  cases hch : f.chain with
+  | nil =>
+    have hm : m.sh.mem f.slot = f.orig := by
+      rcases hi.memOk f (by rw [hf]; simp) with h | ⟨l, r, h, _⟩
+      · exact h
+      · rw [hch] at h; cases h
+    rw [hm, retLoop_stop hof]
+    exact ⟨hx, rfl, rfl, by simp, fun _ _ => rfl⟩
+  | cons lk ch =>
+    have hc' : m.sh.rs.map Ent.c = expChain f.slot f.orig (lk :: ch) ++ expFrames fs := by
+      rw [hc, hf]; simp [expFrames, hch]
+    have hm : m.sh.mem f.slot = hv lk.plt :=
+      hi.top hx (lk.ctl f.slot (belowIp f.orig ch)) (expChain f.slot f.orig ch ++ expFrames fs)
+        (by rw [hf]; simp [expFrames, hch, expChain])
+    have hlen : ch.length + 1 ≤ m.sh.rs.length + 1 := by
+      have := congrArg List.length hc'
+      simp at this; omega
+    obtain ⟨_, _, r3, r4, r5, r6, _, _, _⟩ := retLoop_chain hof ch lk m.sh (expFrames fs) _ hc' hx hi.vf
+      (fun p ps hp => expFrames_loc_ne hsorted (by rw [hp]; simp)) hlen
+    rw [hm]
+    refine ⟨r5, r6, rfl, by rw [r4]; simp, ?_⟩
+    intro a ha
+    show (retLoop _ m.sh (hv lk.plt)).1.mem a = m.sh.mem a
+    rw [r3]
+    cases hexp : expFrames fs with
+    | nil => rfl
+    | cons p ps => exact upd_other _ _ (ha p ps hexp)
+
+end Uft.NonLocal
